@@ -6,13 +6,34 @@
 //! df_settings) are recorded as NDJSON runs; after every call the full listing is diffed.
 use datafusion::execution::memory_pool::MemoryLimit;
 use datafusion::prelude::{SessionConfig, SessionContext};
-use datafusion_common::config::ConfigOptions;
+use datafusion_common::config::{ConfigExtension, ConfigField, ConfigFileType, ConfigOptions, TableOptions};
+use datafusion_common::{ScalarValue, extensions_options};
 use rand::seq::SliceRandom;
 use rand::{Rng, SeedableRng};
 use serde_json::{Value, json};
 use std::collections::HashMap;
 use std::panic::{AssertUnwindSafe, catch_unwind};
 use vcommon::util;
+
+extensions_options! {
+    /// An extension namespace registered by the harness (ConfigExtension / extensions_options!)
+    pub struct VerifExt {
+        /// a boolean extension option
+        pub flag: bool, default = true
+        /// an integer extension option
+        pub rows: usize, default = 7
+        /// a string extension option
+        pub name: String, default = "x".to_string()
+        /// a float extension option
+        pub ratio: f64, default = 0.5
+        /// an optional integer extension option
+        pub limit: Option<usize>, default = None
+    }
+}
+impl ConfigExtension for VerifExt { const PREFIX: &'static str = "verif"; }
+const EXT_FIELDS: [&str; 5] = ["flag", "rows", "name", "ratio", "limit"];
+/// the listing prints extension options without their namespace; the settable key has it
+fn listed_key(k: &str) -> String { if EXT_FIELDS.contains(&k) { format!("verif.{k}") } else { k.to_string() } }
 
 #[derive(Clone, Copy, PartialEq, Debug)]
 enum Class { Bool, UInt, Float, Opt, Str, Size, Dur, NoSet }
@@ -61,7 +82,7 @@ static SIZE: &[Cand] = &[p("1K"), p("64K"), p("1M"), p("512M"), p("1G"), p("2G")
     x("abc"), x("-1G"), x("G")];
 static DUR: &[Cand] = &[c("1m30s"), c("2m"), c("45s"), c("90s"), c("0s"), c("1h"), c("1m0s"), x("abc")];
 
-fn cands(class: Class, sql: bool) -> &'static [Cand] {
+fn cands_static(class: Class, sql: bool) -> &'static [Cand] {
     match class {
         Class::Bool => BOOL,
         Class::UInt => if sql { UINT_SQL } else { UINT },
@@ -74,7 +95,24 @@ fn cands(class: Class, sql: bool) -> &'static [Cand] {
     }
 }
 
+#[derive(Clone)]
+struct OC { text: String, plain: bool, inval: bool }
+
+/// words of an option's own description (enum variants are listed there), in three letter cases
+fn description_words(desc: &str) -> Vec<String> {
+    let mut out: Vec<String> = vec![];
+    for w in desc.split(|c: char| !(c.is_ascii_alphanumeric() || "_()+:.-".contains(c))) {
+        let w = w.trim_matches(|c: char| ".:-".contains(c));
+        if w.is_empty() || w.len() > 24 { continue; }
+        for v in [w.to_string(), w.to_ascii_lowercase(), w.to_ascii_uppercase()] { if !out.contains(&v) { out.push(v); } }
+        if out.len() >= 90 { break; }
+    }
+    out
+}
+
 struct Uni {
+    scope: Vec<String>,          // "cfg" (ConfigOptions / SessionConfig / SQL), "sql" (runtime), "table:<fmt>"
+    desc: Vec<String>,
     keys: Vec<String>,
     kidx: HashMap<String, usize>,
     class: Vec<Class>,
@@ -102,6 +140,7 @@ enum Fe {
     Opts(Box<ConfigOptions>),
     Sess(Box<SessionConfig>),
     Sql(Box<SessionContext>),
+    Table(Box<TableOptions>, String),
 }
 
 struct Drv {
@@ -110,6 +149,7 @@ struct Drv {
     sql_errors: u64,
     sql_unusable: u64,
     show_skipped: u64,
+    paths: std::collections::BTreeMap<String, u64>,
 }
 
 fn sql_quote(s: &str) -> String { format!("'{}'", s.replace('\'', "''")) }
@@ -117,7 +157,7 @@ fn sql_quote(s: &str) -> String { format!("'{}'", s.replace('\'', "''")) }
 impl Drv {
     fn run_sql(&self, ctx: &SessionContext, q: &str) -> Result<Vec<arrow::record_batch::RecordBatch>, String> {
         let fut = async {
-            match tokio::time::timeout(std::time::Duration::from_secs(120), async {
+            match tokio::time::timeout(std::time::Duration::from_secs(180), async {
                 let df = ctx.sql(q).await.map_err(|e| e.to_string())?;
                 df.collect().await.map_err(|e| e.to_string())
             }).await {
@@ -135,11 +175,11 @@ impl Drv {
         let mut s: Snap = vec![None; self.uni.keys.len()];
         let mut put = |k: &str, v: Option<String>| { if let Some(i) = self.uni.kidx.get(k) { s[*i] = v; } };
         match fe {
-            Fe::Opts(o) => for e in o.entries() { put(&e.key, e.value) },
-            Fe::Sess(c) => for e in c.options().entries() { put(&e.key, e.value) },
+            Fe::Opts(o) => for e in o.entries() { put(&listed_key(&e.key), e.value) },
+            Fe::Sess(c) => for e in c.options().entries() { put(&listed_key(&e.key), e.value) },
             Fe::Sql(ctx) => {
                 let st = ctx.state();
-                for e in st.config().options().entries() { put(&e.key, e.value) }
+                for e in st.config().options().entries() { put(&listed_key(&e.key), e.value) }
                 let rt = ctx.runtime_env();
                 // temp_directory shows the lazily created spill directories (a random path that appears when the
                 // disk manager is first used): an observation of the environment, not a settable text form
@@ -147,35 +187,55 @@ impl Drv {
                 put(RAW_MEM, Some(match rt.memory_pool.memory_limit() { MemoryLimit::Finite(n) => n.to_string(), MemoryLimit::Infinite => "infinite".into(), _ => "unknown".into() }));
                 put(RAW_TMP, Some(rt.disk_manager.max_temp_directory_size().to_string()));
             }
+            Fe::Table(t, fmt) => for e in t.entries() { put(&format!("table[{fmt}]:{}", e.key), e.value) },
         }
         s
     }
 
-    /// Set(k, text) through the front end; returns ok
-    fn set(&mut self, fe: &mut Fe, key: &str, text: &str, variant: u32) -> Option<bool> {
+    /// Set(k, text) through the front end; returns ok (None: the front end could not even be asked)
+    fn set(&mut self, fe: &mut Fe, ki: usize, text: &str, plain: bool, variant: u32) -> Option<bool> {
+        let key = self.uni.keys[ki].clone();
+        let class = self.uni.class[ki];
         Some(match fe {
-            Fe::Opts(o) => o.set(key, text).is_ok(),
+            Fe::Opts(o) => { self.path("ConfigOptions::set"); o.set(&key, text).is_ok() }
+            Fe::Table(t, _) => { self.path("TableOptions::set"); t.set(key.split_once(':').unwrap().1, text).is_ok() }
             Fe::Sess(cfg) => {
-                if variant % 2 == 0 {
-                    cfg.options_mut().set(key, text).is_ok()
-                } else {
-                    // the builder-style setter panics/ignores on failure: run it on a copy
-                    let copy = (**cfg).clone();
-                    match catch_unwind(AssertUnwindSafe(|| copy.set_str(key, text))) {
-                        Ok(n) => {
-                            // set_str cannot report failure: success is "the listing changed or the text is what is shown"
-                            let ok = n.options().entries().iter().any(|e| e.key == key && e.value.as_deref() == Some(text))
-                                || n.options().entries() != cfg.options().entries();
-                            if ok { **cfg = n; }
-                            // undecidable otherwise: fall back to the fallible API for the verdict
-                            if !ok { return Some(cfg.options_mut().set(key, text).is_ok()); }
-                            true
+                // typed setters and named builders are only total on valid input (they unwrap): run them on a copy
+                let copy = (**cfg).clone();
+                let typed: Option<(&'static str, Box<dyn FnOnce(SessionConfig) -> SessionConfig>)> = match (variant % 4, class, plain) {
+                    (1, Class::Bool, true) => { let b = text == "true"; let k = key.clone(); Some(("SessionConfig::set_bool", Box::new(move |c| c.set_bool(&k, b)))) }
+                    (1, Class::UInt, true) => match text.parse::<u64>() { Ok(n) => { let k = key.clone(); Some(("SessionConfig::set_u64", Box::new(move |c| c.set_u64(&k, n)))) } Err(_) => None },
+                    (2, Class::UInt, true) => match text.parse::<usize>() { Ok(n) => { let k = key.clone(); Some(("SessionConfig::set_usize", Box::new(move |c| c.set_usize(&k, n)))) } Err(_) => None },
+                    (2, Class::Str, _) | (2, Class::Opt, _) => { let k = key.clone(); let v = ScalarValue::Utf8(Some(text.to_string())); Some(("SessionConfig::set(ScalarValue)", Box::new(move |c| c.set(&k, &v)))) }
+                    (3, _, true) => {
+                        let n = text.parse::<usize>().ok();
+                        let b = text == "true";
+                        match (key.as_str(), n) {
+                            ("datafusion.execution.batch_size", Some(n)) if n > 0 => Some(("SessionConfig::with_batch_size", Box::new(move |c| c.with_batch_size(n)))),
+                            ("datafusion.execution.target_partitions", Some(n)) if n > 0 => Some(("SessionConfig::with_target_partitions", Box::new(move |c| c.with_target_partitions(n)))),
+                            ("datafusion.catalog.information_schema", None) => Some(("SessionConfig::with_information_schema", Box::new(move |c| c.with_information_schema(b)))),
+                            ("datafusion.optimizer.repartition_joins", None) => Some(("SessionConfig::with_repartition_joins", Box::new(move |c| c.with_repartition_joins(b)))),
+                            ("datafusion.execution.parquet.pruning", None) => Some(("SessionConfig::with_parquet_pruning", Box::new(move |c| c.with_parquet_pruning(b)))),
+                            ("datafusion.execution.collect_statistics", None) => Some(("SessionConfig::with_collect_statistics", Box::new(move |c| c.with_collect_statistics(b)))),
+                            _ => None,
                         }
-                        Err(_) => false,
+                    }
+                    (3, _, false) => { let (k, v) = (key.clone(), text.to_string()); Some(("SessionConfig::set_str", Box::new(move |c| c.set_str(&k, &v)))) }
+                    _ => None,
+                };
+                match typed {
+                    None => { self.path("SessionConfig::options_mut().set"); cfg.options_mut().set(&key, text).is_ok() }
+                    Some((name, f)) => {
+                        self.path(name);
+                        match catch_unwind(AssertUnwindSafe(|| f(copy))) {
+                            Ok(n) => { **cfg = n; true }
+                            Err(_) => false,      // the setter unwrapped an error: rejected, cfg untouched
+                        }
                     }
                 }
             }
             Fe::Sql(ctx) => {
+                self.path("SQL SET");
                 let q = if variant % 3 == 0 && !text.is_empty() && (text.chars().all(|c| c.is_ascii_digit()) || text == "true" || text == "false") {
                     format!("SET {key} = {text}")
                 } else if variant % 3 == 1 {
@@ -199,13 +259,35 @@ impl Drv {
         })
     }
 
-    /// Show(k) through a *printing* front end (not the snapshot): Some(printed) or None when it cannot be asked
-    fn show(&mut self, fe: &Fe, key: &str, variant: u32) -> Option<Option<String>> {
+    /// RESET k through the front end; None when the front end has no reset
+    fn reset(&mut self, fe: &mut Fe, ki: usize) -> Option<bool> {
+        let key = self.uni.keys[ki].clone();
         match fe {
-            Fe::Opts(o) => Some(o.entries().into_iter().find(|e| e.key == key).and_then(|e| e.value)),
-            Fe::Sess(cfg) => Some(cfg.options().entries().into_iter().find(|e| e.key == key).and_then(|e| e.value)),
+            Fe::Opts(o) => { self.path("ConfigOptions::reset"); Some(ConfigField::reset(&mut **o, &key).is_ok()) }
+            Fe::Sess(cfg) => { self.path("SessionConfig::options_mut().reset"); Some(ConfigField::reset(cfg.options_mut(), &key).is_ok()) }
             Fe::Sql(ctx) => {
-                let q = if variant % 2 == 0 { format!("SHOW {key}") } else { format!("SELECT name, value FROM information_schema.df_settings WHERE name = '{key}'") };
+                self.path("SQL RESET");
+                let ctx2 = (**ctx).clone();
+                match self.run_sql(&ctx2, &format!("RESET {key}")) {
+                    Ok(_) => Some(true),
+                    Err(e) if e.starts_with("SQL error") || e == "panic" => { self.sql_unusable += 1; None }
+                    Err(_) => Some(false),
+                }
+            }
+            Fe::Table(..) => None,
+        }
+    }
+
+    /// Show(k) through a *printing* front end (not the snapshot): Some(printed) or None when it cannot be asked
+    fn show(&mut self, fe: &Fe, ki: usize, variant: u32) -> Option<Option<String>> {
+        let key = self.uni.keys[ki].clone();
+        match fe {
+            Fe::Opts(o) => Some(o.entries().into_iter().find(|e| listed_key(&e.key) == key).and_then(|e| e.value)),
+            Fe::Sess(cfg) => Some(cfg.options().entries().into_iter().find(|e| listed_key(&e.key) == key).and_then(|e| e.value)),
+            Fe::Table(t, fmt) => Some(t.entries().into_iter().find(|e| format!("table[{fmt}]:{}", e.key) == key).and_then(|e| e.value)),
+            Fe::Sql(ctx) => {
+                let q = if variant % 2 == 0 { self.path("SQL SHOW"); format!("SHOW {key}") }
+                        else { self.path("SQL df_settings"); format!("SELECT name, value FROM information_schema.df_settings WHERE name = '{key}'") };
                 let ctx2 = (**ctx).clone();
                 match self.run_sql(&ctx2, &q) {
                     Ok(b) => {
@@ -222,14 +304,45 @@ impl Drv {
             }
         }
     }
+
+    fn path(&mut self, p: &str) { *self.paths.entry(p.to_string()).or_insert(0) += 1; }
+
+    fn cands(&self, ki: usize, sql: bool) -> Vec<OC> {
+        let class = self.uni.class[ki];
+        let mut v: Vec<OC> = cands_static(class, sql).iter().map(|c| OC { text: c.text.to_string(), plain: c.plain, inval: c.inval }).collect();
+        if matches!(class, Class::Str | Class::Opt) {
+            for w in description_words(&self.uni.desc[ki]) { if !v.iter().any(|c| c.text == w) { v.push(OC { text: w, plain: false, inval: false }); } }
+        }
+        v
+    }
+}
+
+fn table_options(fmt: &str) -> TableOptions {
+    let mut t = TableOptions::new();
+    t.set_config_format(match fmt { "csv" => ConfigFileType::CSV, "json" => ConfigFileType::JSON, _ => ConfigFileType::PARQUET });
+    t
 }
 
 fn new_fe(kind: &str) -> Fe {
     match kind {
-        "opts" => Fe::Opts(Box::new(ConfigOptions::new())),
-        "sess" => Fe::Sess(Box::new(SessionConfig::new())),
-        _ => Fe::Sql(Box::new(SessionContext::new_with_config(SessionConfig::new().with_information_schema(true)))),
+        "opts" => { let mut o = ConfigOptions::new(); o.extensions.insert(VerifExt::default()); Fe::Opts(Box::new(o)) }
+        "sess" => Fe::Sess(Box::new(SessionConfig::new().with_option_extension(VerifExt::default()))),
+        "sql" => Fe::Sql(Box::new(SessionContext::new_with_config(SessionConfig::new().with_information_schema(true).with_option_extension(VerifExt::default())))),
+        k => { let fmt = k.strip_prefix("table:").unwrap(); Fe::Table(Box::new(table_options(fmt)), fmt.to_string()) }
     }
+}
+
+/// the same kind of front end with nothing but defaults (what RESET goes back to)
+fn default_fe(kind: &str) -> Fe {
+    match kind {
+        "sql" => Fe::Sql(Box::new(SessionContext::new_with_config(SessionConfig::new().with_option_extension(VerifExt::default())))),
+        k => new_fe(k),
+    }
+}
+
+fn umbrella_consistent(entries: &[(String, Option<String>)]) -> bool {
+    let v: Vec<&Option<String>> = entries.iter().filter(|(k, _)| k.contains("dynamic_filter_pushdown")).map(|(_, v)| v).collect();
+    v.windows(2).all(|w| w[0] == w[1])
 }
 
 pub fn main() {
@@ -238,47 +351,117 @@ pub fn main() {
     let seed = util::seed();
     let quick = util::tier_quick();
     std::panic::set_hook(Box::new(|_| {}));
+    let mut rng = rand::rngs::StdRng::seed_from_u64(seed ^ 0xC43);
+
+    // 0. ConfigOptions::from_env, before any other thread exists: a configuration reached by plain Sets is
+    //    exported to the environment in its own text form and must be rebuilt exactly
+    let env_result: Option<(Vec<(String, Option<String>)>, Vec<(String, Option<String>)>)>;
+    {
+        let mut o = ConfigOptions::new();
+        let listing = o.entries();
+        for e in &listing {
+            if e.key.contains("dynamic_filter_pushdown") { continue; }
+            let class = classify(&e.key, &e.value);
+            let pool: Vec<&Cand> = cands_static(class, false).iter().filter(|c| c.plain).collect();
+            if pool.is_empty() || rng.random_range(0..3) == 0 { continue; }
+            let _ = o.set(&e.key, pool[rng.random_range(0..pool.len())].text);
+        }
+        let want: Vec<(String, Option<String>)> = o.entries().into_iter().map(|e| (e.key, e.value)).collect();
+        let mut names = vec![];
+        for (k, v) in &want {
+            if let Some(v) = v {
+                let name = k.to_uppercase().replace('.', "_");
+                // SAFETY: no other thread has been started yet
+                unsafe { std::env::set_var(&name, v); }
+                names.push(name);
+            }
+        }
+        let got = ConfigOptions::from_env();
+        for n in names { unsafe { std::env::remove_var(&n); } }
+        if let Ok(g) = got {
+            env_result = Some((want, g.entries().into_iter().map(|e| (e.key, e.value)).collect()));
+        } else {
+            env_result = Some((want, vec![]));
+        }
+    }
+
     let rt = tokio::runtime::Builder::new_current_thread().enable_all().build().unwrap();
-    // the universe, from the implementation's own listing
-    let mut keys: Vec<(String, Option<String>)> = ConfigOptions::new().entries().into_iter().map(|e| (e.key, e.value)).collect();
-    let n_options = keys.len();
+    // the universe, from the implementation's own listings
+    let mut uni = Uni { scope: vec![], desc: vec![], keys: vec![], kidx: HashMap::new(), class: vec![], texts: vec![], tidx: HashMap::new() };
+    let add = |uni: &mut Uni, k: String, v: &Option<String>, scope: &str, desc: &str, class: Option<Class>| {
+        uni.kidx.insert(k.clone(), uni.keys.len());
+        uni.class.push(class.unwrap_or_else(|| classify(&k, v)));
+        uni.keys.push(k);
+        uni.scope.push(scope.to_string());
+        uni.desc.push(desc.to_string());
+    };
+    let base = match new_fe("opts") { Fe::Opts(o) => o, _ => unreachable!() };
+    for e in base.entries() { add(&mut uni, listed_key(&e.key), &e.value, "cfg", e.description, None); }
+    let n_options = uni.keys.len();
     {
         let ctx = SessionContext::new();
-        for e in ctx.runtime_env().config_entries() { keys.push((e.key, e.value)); }
+        for e in ctx.runtime_env().config_entries() { add(&mut uni, e.key.clone(), &e.value, "sql", e.description, None); }
     }
-    keys.push((RAW_MEM.into(), None));
-    keys.push((RAW_TMP.into(), None));
-    let mut uni = Uni { keys: vec![], kidx: HashMap::new(), class: vec![], texts: vec![], tidx: HashMap::new() };
-    for (k, v) in &keys {
-        uni.kidx.insert(k.clone(), uni.keys.len());
-        uni.keys.push(k.clone());
-        uni.class.push(classify(k, v));
+    add(&mut uni, RAW_MEM.into(), &None, "sql", "", Some(Class::NoSet));
+    add(&mut uni, RAW_TMP.into(), &None, "sql", "", Some(Class::NoSet));
+    let mut table_keys = 0usize;
+    let mut column_keys = 0usize;
+    for fmt in ["csv", "json", "parquet"] {
+        let t = table_options(fmt);
+        let listing = t.entries();
+        for e in &listing { add(&mut uni, format!("table[{fmt}]:{}", e.key), &e.value, &format!("table:{fmt}"), e.description, None); table_keys += 1; }
+        if fmt == "parquet" {
+            // per-column options: discovered by asking the implementation which `<option>::<column>` keys it accepts
+            for e in &listing {
+                let ck = format!("{}::c1", e.key);
+                let accepted = e.value.iter().cloned().chain(["true", "0.5", "64", "plain", "zstd(3)", "page"].iter().map(|s| s.to_string())).any(|v| {
+                    let mut probe = table_options(fmt);
+                    probe.set(&ck, &v).is_ok() && probe.entries().iter().any(|x| x.key == ck)
+                });
+                if accepted {
+                    add(&mut uni, format!("table[{fmt}]:{ck}"), &None, &format!("table:{fmt}"), e.description, Some(Class::Opt));
+                    column_keys += 1;
+                }
+            }
+        }
     }
-    let mut d = Drv { rt, uni, sql_errors: 0, sql_unusable: 0, show_skipped: 0 };
+    let mut d = Drv { rt, uni, sql_errors: 0, sql_unusable: 0, show_skipped: 0, paths: Default::default() };
     let nkeys = d.uni.keys.len();
     let mut over: Vec<Value> = vec![];
-    let mut over_map: HashMap<usize, Vec<usize>> = HashMap::new();
     if let Some(&u) = d.uni.kidx.get(UMBRELLA) {
         let js: Vec<usize> = UMBRELLA_OVER.iter().filter_map(|k| d.uni.kidx.get(*k).copied()).collect();
-        over_map.insert(u, js);
+        over.push(json!({"k": u + 1, "js": js.iter().map(|j| j + 1).collect::<Vec<_>>()}));
     }
     let mut raw: Vec<Value> = vec![];
     for (k, r) in [("datafusion.runtime.memory_limit", RAW_MEM), ("datafusion.runtime.max_temp_directory_size", RAW_TMP)] {
         if let (Some(&a), Some(&b)) = (d.uni.kidx.get(k), d.uni.kidx.get(r)) { raw.push(json!({"k": a + 1, "js": [b + 1]})); }
     }
-    for (k, js) in &over_map { over.push(json!({"k": k + 1, "js": js.iter().map(|j| j + 1).collect::<Vec<_>>()})); }
 
-    let mut rng = rand::rngs::StdRng::seed_from_u64(seed ^ 0xC43);
     let mut runs: Vec<Value> = vec![];
-    let mut n_set = 0u64; let mut n_show = 0u64; let mut n_ok = 0u64;
-    let mut covered: Vec<[bool; 3]> = vec![[false; 3]; nkeys];   // per key: round trip at default, a changed value round trip, an invalid text
+    let mut n_set = 0u64; let mut n_show = 0u64; let mut n_ok = 0u64; let mut n_reset = 0u64; let mut n_rebuild = 0u64;
+    let mut covered: Vec<[bool; 4]> = vec![[false; 4]; nkeys];   // per key: round trip at default, at a changed value, an invalid text, reset after a change
 
-    // one step helper
+    // the from_env result as a run of its own
+    if let Some((want, got)) = env_result {
+        let mut init = vec![0usize; nkeys];
+        for (k, v) in &want { if let Some(&i) = d.uni.kidx.get(k) { init[i] = d.uni.t(v); } }
+        let mut diff = vec![];
+        for (k, v) in &want {
+            // an absent key and a key printed without a value are the same observation
+            let g: Option<String> = got.iter().find(|(gk, _)| gk == k).and_then(|(_, v)| v.clone());
+            if g != *v { if let Some(&i) = d.uni.kidx.get(k) { let t = d.uni.t(&g); diff.push(json!([i + 1, t])); } }
+        }
+        d.path("ConfigOptions::from_env");
+        n_rebuild += 1;
+        runs.push(json!({"keys": nkeys, "over": over, "raw": raw, "fe": "opts", "kind": "from_env",
+                         "ev": [json!({"op": "init", "cfg": init, "dflt": init}), json!({"op": "rebuild", "via": "from_env", "ok": !got.is_empty(), "diff": diff})]}));
+    }
+
+    // one step helpers
     macro_rules! do_set {
         ($fe:expr, $ev:expr, $snap:expr, $ki:expr, $text:expr, $plain:expr, $inval:expr) => {{
-            let key = d.uni.keys[$ki].clone();
             let text: String = $text;
-            let Some(ok) = d.set(&mut $fe, &key, &text, rng.random()) else { continue };
+            let Some(ok) = d.set(&mut $fe, $ki, &text, $plain, rng.random()) else { continue };
             let after = d.snapshot(&$fe);
             let mut ch = vec![];
             for j in 0..nkeys { if after[j] != $snap[j] { let t = d.uni.t(&after[j]); ch.push(json!([j + 1, t])); } }
@@ -291,37 +474,94 @@ pub fn main() {
     }
     macro_rules! do_show {
         ($fe:expr, $ev:expr, $ki:expr) => {{
-            let key = d.uni.keys[$ki].clone();
-            if let Some(v) = d.show(&$fe, &key, rng.random()) {
+            if let Some(v) = d.show(&$fe, $ki, rng.random()) {
                 let t = d.uni.t(&v);
                 $ev.push(json!({"op": "show", "k": $ki + 1, "t": t}));
                 n_show += 1;
             }
         }};
     }
+    macro_rules! do_reset {
+        ($fe:expr, $ev:expr, $snap:expr, $ki:expr) => {{
+            if let Some(ok) = d.reset(&mut $fe, $ki) {
+                let after = d.snapshot(&$fe);
+                let mut ch = vec![];
+                for j in 0..nkeys { if after[j] != $snap[j] { let t = d.uni.t(&after[j]); ch.push(json!([j + 1, t])); } }
+                $ev.push(json!({"op": "reset", "k": $ki + 1, "ok": ok, "ch": ch}));
+                $snap = after;
+                n_reset += 1;
+                ok
+            } else { false }
+        }};
+    }
+    // the whole configuration rebuilt from its own listing (from_string_hash_map) must be the same configuration
+    macro_rules! do_rebuild {
+        ($fe:expr, $ev:expr, $snap:expr) => {{
+            let listing: Vec<(String, Option<String>)> = match &$fe {
+                Fe::Opts(o) => o.entries().into_iter().map(|e| (e.key, e.value)).collect(),
+                Fe::Sess(c) => c.options().entries().into_iter().map(|e| (e.key, e.value)).collect(),
+                Fe::Sql(ctx) => ctx.state().config().options().entries().into_iter().map(|e| (e.key, e.value)).collect(),
+                Fe::Table(t, _) => t.entries().into_iter().map(|e| (e.key, e.value)).collect(),
+            };
+            if umbrella_consistent(&listing) {
+                let map: HashMap<String, String> = listing.iter().filter(|(k, _)| !EXT_FIELDS.contains(&k.as_str())).filter_map(|(k, v)| v.clone().map(|v| (k.clone(), v))).collect();
+                let (via, rebuilt): (&str, Result<Vec<(String, Option<String>)>, String>) = match &$fe {
+                    Fe::Table(_, fmt) => ("TableOptions::alter_with_string_hash_map", {
+                        let mut t = table_options(fmt);
+                        t.alter_with_string_hash_map(&map).map(|_| t.entries().into_iter().map(|e| (e.key, e.value)).collect()).map_err(|e| e.to_string())
+                    }),
+                    Fe::Sess(_) => ("SessionConfig::from_string_hash_map", SessionConfig::from_string_hash_map(&map).map(|c| c.options().entries().into_iter().map(|e| (e.key, e.value)).collect()).map_err(|e| e.to_string())),
+                    _ => ("ConfigOptions::from_string_hash_map", ConfigOptions::from_string_hash_map(&map).map(|c| c.entries().into_iter().map(|e| (e.key, e.value)).collect()).map_err(|e| e.to_string())),
+                };
+                d.path(via);
+                let prefix = match &$fe { Fe::Table(_, fmt) => format!("table[{fmt}]:"), _ => String::new() };
+                let mut diff = vec![];
+                let ok = rebuilt.is_ok();
+                if let Ok(r) = rebuilt {
+                    for (k, v) in &listing {
+                        if EXT_FIELDS.contains(&k.as_str()) { continue; }
+                        let g: Option<String> = r.iter().find(|(gk, _)| gk == k).and_then(|(_, v)| v.clone());
+                        if g != *v { if let Some(&i) = d.uni.kidx.get(&format!("{prefix}{k}")) { let t = d.uni.t(&g); diff.push(json!([i + 1, t])); } }
+                    }
+                }
+                $ev.push(json!({"op": "rebuild", "via": via, "ok": ok, "diff": diff}));
+                n_rebuild += 1;
+            }
+        }};
+    }
 
     // 1. coverage runs: every key, through every front end that has it
     let per_run = 8usize;
-    for fe_kind in ["opts", "sql", "sess"] {
-        let settable: Vec<usize> = (0..nkeys).filter(|&i| d.uni.class[i] != Class::NoSet && (fe_kind == "sql" || i < n_options)).collect();
+    let fe_kinds = ["opts", "sql", "sess", "table:csv", "table:json", "table:parquet"];
+    for fe_kind in fe_kinds {
+        let settable: Vec<usize> = (0..nkeys).filter(|&i| d.uni.class[i] != Class::NoSet
+            && (d.uni.scope[i] == fe_kind || (d.uni.scope[i] == "cfg" && !fe_kind.starts_with("table")) || (d.uni.scope[i] == "sql" && fe_kind == "sql"))).collect();
         for chunk in settable.chunks(per_run) {
             let mut fe = new_fe(fe_kind);
             let mut snap = d.snapshot(&fe);
             let init: Vec<usize> = snap.clone().iter().map(|v| d.uni.t(v)).collect();
-            let mut ev: Vec<Value> = vec![json!({"op": "init", "cfg": init})];
+            let dflt: Vec<usize> = d.snapshot(&default_fe(fe_kind)).iter().map(|v| d.uni.t(v)).collect();
+            let mut ev: Vec<Value> = vec![json!({"op": "init", "cfg": init, "dflt": dflt})];
             for &ki in chunk {
-                let class = d.uni.class[ki];
                 do_show!(fe, ev, ki);
                 // round trip of the default text
                 if let Some(v) = snap[ki].clone() {
                     do_set!(fe, ev, snap, ki, v, false, false);
                     covered[ki][0] = true;
                 }
-                let mut cs: Vec<&Cand> = cands(class, fe_kind == "sql").iter().collect();
-                cs.shuffle(&mut rng);
-                let take = if fe_kind == "sess" { 4 } else if quick { 10 } else { cs.len() };
-                for cand in cs.into_iter().take(take) {
-                    let ok = do_set!(fe, ev, snap, ki, cand.text.to_string(), cand.plain, cand.inval);
+                // static candidates of the class (all of them for unset options, whose type is unknown) + words of the
+                // option's own description (enum variants)
+                let all = d.cands(ki, fe_kind == "sql");
+                let nstatic = cands_static(d.uni.class[ki], fe_kind == "sql").len();
+                let (mut stat, mut words) = (all[..nstatic].to_vec(), all[nstatic..].to_vec());
+                stat.shuffle(&mut rng);
+                words.shuffle(&mut rng);
+                let take = if fe_kind == "sess" { 5 } else if !quick || d.uni.class[ki] == Class::Opt { stat.len() } else { 10 };
+                let take_w = if fe_kind == "sess" { 2 } else if quick { 8 } else { words.len() };
+                let cs: Vec<OC> = stat.into_iter().take(take).chain(words.into_iter().take(take_w)).collect();
+                let mut changed_once = false;
+                for cand in cs.into_iter() {
+                    let ok = do_set!(fe, ev, snap, ki, cand.text.clone(), cand.plain, cand.inval);
                     if cand.inval { covered[ki][2] = true; }
                     if ok {
                         do_show!(fe, ev, ki);
@@ -329,6 +569,35 @@ pub fn main() {
                             // Set(k, Show(k)) on a non-default value
                             do_set!(fe, ev, snap, ki, v, false, false);
                             covered[ki][1] = true;
+                        }
+                        if !changed_once || rng.random_range(0..4) == 0 {
+                            // SET then RESET shows the default again
+                            if do_reset!(fe, ev, snap, ki) { covered[ki][3] = true; do_show!(fe, ev, ki); }
+                            changed_once = true;
+                        }
+                    }
+                }
+            }
+            do_rebuild!(fe, ev, snap);
+            if fe_kind == "sql" {
+                // the whole df_settings table agrees with the model
+                if let Fe::Sql(ctx) = &fe {
+                    let ctx2 = (**ctx).clone();
+                    if let Ok(bs) = d.run_sql(&ctx2, "SELECT name, value FROM information_schema.df_settings") {
+                        d.path("SQL df_settings (all rows)");
+                        use arrow::array::Array;
+                        for b in &bs {
+                            let (n, v) = (arrow::compute::cast(b.column(0), &arrow::datatypes::DataType::Utf8).unwrap(), arrow::compute::cast(b.column(1), &arrow::datatypes::DataType::Utf8).unwrap());
+                            let (n, v) = (n.as_any().downcast_ref::<arrow::array::StringArray>().unwrap().clone(), v.as_any().downcast_ref::<arrow::array::StringArray>().unwrap().clone());
+                            for i in 0..b.num_rows() {
+                                let key = listed_key(n.value(i));
+                                if key == "datafusion.runtime.temp_directory" { continue; }
+                                if let Some(&ki) = d.uni.kidx.get(&key) {
+                                    let t = d.uni.t(&if v.is_null(i) { None } else { Some(v.value(i).to_string()) });
+                                    ev.push(json!({"op": "show", "k": ki + 1, "t": t}));
+                                    n_show += 1;
+                                }
+                            }
                         }
                     }
                 }
@@ -339,39 +608,65 @@ pub fn main() {
     // 2. seeded random histories mixing keys
     let nrand = if quick { 24 } else { 200 };
     for r in 0..nrand {
-        let fe_kind = ["opts", "sql", "sess"][r % 3];
+        let fe_kind = fe_kinds[r % fe_kinds.len()];
         let mut fe = new_fe(fe_kind);
         let mut snap = d.snapshot(&fe);
         let init: Vec<usize> = snap.clone().iter().map(|v| d.uni.t(v)).collect();
-        let mut ev: Vec<Value> = vec![json!({"op": "init", "cfg": init})];
-        let settable: Vec<usize> = (0..nkeys).filter(|&i| d.uni.class[i] != Class::NoSet && (fe_kind == "sql" || i < n_options)).collect();
+        let dflt: Vec<usize> = d.snapshot(&default_fe(fe_kind)).iter().map(|v| d.uni.t(v)).collect();
+        let mut ev: Vec<Value> = vec![json!({"op": "init", "cfg": init, "dflt": dflt})];
+        let settable: Vec<usize> = (0..nkeys).filter(|&i| d.uni.class[i] != Class::NoSet
+            && (d.uni.scope[i] == fe_kind || (d.uni.scope[i] == "cfg" && !fe_kind.starts_with("table")) || (d.uni.scope[i] == "sql" && fe_kind == "sql"))).collect();
         let mut touched: Vec<usize> = vec![];
         for _ in 0..(if quick { 60 } else { 150 }) {
             let ki = if !touched.is_empty() && rng.random_range(0..3) > 0 { touched[rng.random_range(0..touched.len())] } else { settable[rng.random_range(0..settable.len())] };
-            match rng.random_range(0..10) {
+            match rng.random_range(0..12) {
                 0..=2 => do_show!(fe, ev, ki),
                 3..=5 => { if let Some(v) = snap[ki].clone() { do_set!(fe, ev, snap, ki, v, false, false); } }
+                6 => { do_reset!(fe, ev, snap, ki); }
+                7 => do_rebuild!(fe, ev, snap),
                 _ => {
-                    let cs = cands(d.uni.class[ki], fe_kind == "sql");
-                    let cand = &cs[rng.random_range(0..cs.len())];
-                    if do_set!(fe, ev, snap, ki, cand.text.to_string(), cand.plain, cand.inval) { touched.push(ki); }
+                    let cs = d.cands(ki, fe_kind == "sql");
+                    let cand = cs[rng.random_range(0..cs.len())].clone();
+                    if do_set!(fe, ev, snap, ki, cand.text.clone(), cand.plain, cand.inval) { touched.push(ki); }
                 }
             }
         }
         runs.push(json!({"keys": nkeys, "over": over, "raw": raw, "fe": fe_kind, "kind": "random", "ev": ev}));
     }
+    // information: df_settings descriptions against the listing's
+    let mut description_mismatches = 0u64;
+    if let Fe::Sql(ctx) = new_fe("sql") {
+        if let Ok(bs) = d.run_sql(&ctx, "SELECT name, description FROM information_schema.df_settings") {
+            use arrow::array::Array;
+            for b in &bs {
+                let (n, v) = (arrow::compute::cast(b.column(0), &arrow::datatypes::DataType::Utf8).unwrap(), arrow::compute::cast(b.column(1), &arrow::datatypes::DataType::Utf8).unwrap());
+                let (n, v) = (n.as_any().downcast_ref::<arrow::array::StringArray>().unwrap().clone(), v.as_any().downcast_ref::<arrow::array::StringArray>().unwrap().clone());
+                for i in 0..b.num_rows() {
+                    if let Some(&ki) = d.uni.kidx.get(&listed_key(n.value(i))) {
+                        if !v.is_null(i) && v.value(i) != d.uni.desc[ki] { description_mismatches += 1; }
+                    }
+                }
+            }
+        }
+    }
     util::write_ndjson(&out, &runs);
-    let not_covered: Vec<&String> = (0..nkeys).filter(|&i| d.uni.class[i] != Class::NoSet && !(covered[i][0] || covered[i][1])).map(|i| &d.uni.keys[i]).collect();
+    let not_covered: Vec<&String> = (0..nkeys).filter(|&i| d.uni.class[i] != Class::NoSet && d.uni.class[i] != Class::Opt && !(covered[i][0] || covered[i][1])).map(|i| &d.uni.keys[i]).collect();
+    let unset_never_accepting: Vec<&String> = (0..nkeys).filter(|&i| d.uni.class[i] == Class::Opt && !covered[i][1]).map(|i| &d.uni.keys[i]).collect();
     std::fs::write(&meta, serde_json::to_string(&json!({
         "keys": d.uni.keys, "classes": d.uni.class.iter().map(|c| format!("{c:?}")).collect::<Vec<_>>(), "texts": d.uni.texts,
         "n_options": n_options,
     })).unwrap()).unwrap();
     util::summary(json!({
-        "runs": runs.len(), "set_events": n_set, "set_ok": n_ok, "show_events": n_show, "keys": nkeys, "option_keys": n_options,
+        "runs": runs.len(), "set_events": n_set, "set_ok": n_ok, "show_events": n_show, "reset_events": n_reset, "rebuild_events": n_rebuild,
+        "keys": nkeys, "option_keys": n_options, "table_option_keys": table_keys, "parquet_column_option_keys": column_keys,
         "keys_round_tripped_at_default": covered.iter().filter(|c| c[0]).count(),
         "keys_round_tripped_at_changed_value": covered.iter().filter(|c| c[1]).count(),
         "keys_given_invalid_text": covered.iter().filter(|c| c[2]).count(),
+        "keys_reset_after_a_change": covered.iter().filter(|c| c[3]).count(),
         "keys_never_round_tripped": not_covered,
+        "unset_options_that_accepted_no_candidate": unset_never_accepting,
         "sql_set_errors": d.sql_errors, "sql_front_end_unusable": d.sql_unusable, "sql_show_skipped": d.show_skipped,
+        "df_settings_descriptions_differing_from_entries": description_mismatches,
+        "paths": d.paths,
     }));
 }
